@@ -107,7 +107,10 @@ SplitJoinInverse ==
      /\ SplitString(JoinStrings(pieces, <<v>>), v) = pieces
 
 AtOptionalLaws ==
-  \A i \in 0..(MaxLen + 1) : (AtOptional(s, i) # None <=> i < Len(s)) /\ (i < Len(s) => AtOptional(s, i) = Some(s[i + 1]))
+  \A i \in 0..(MaxLen + 1) :
+    /\ (AtOptional(s, i) # None <=> i < Len(s)) /\ (i < Len(s) => AtOptional(s, i) = Some(s[i + 1]))
+    /\ LET am == AtOptionalMutR(s, i, 7)
+       IN Len(am.st) = Len(s) /\ \A j \in Indices(s) : am.st[j] = (IF j = i + 1 THEN s[j] + 7 ELSE s[j])
 
 ArrayLaws ==
   /\ ArrayJoin(<<s, <<v>>, Reverse(s)>>) = ArrayAppend(ArrayAppend(s, <<v>>), Reverse(s))
@@ -139,7 +142,11 @@ MapLawsAssoc ==
      /\ Keys(g.st) = Keys(m) \cup {v}
      /\ FindOptMapped(g.st, v) = Some(g.elem + 3)
      /\ \A k \in Keys(m) \ {v} : FindOptMapped(g.st, k) = FindOptMapped(m, k)
-     /\ g.log = (IF g.inserted THEN <<v>> ELSE <<>>)
+     /\ g.log = (IF g.inserted THEN <<v>> ELSE <<>>) /\ Len(g.present) = Len(g.log)
+     /\ LET fm == FindOptMappedMutR(m, v, 5)
+        IN IsMapSeq(fm.st) /\ Keys(fm.st) = Keys(m)
+           /\ (fm.r # None => FindOptMapped(fm.st, v) = Some(fm.r[1] + 5)) /\ (fm.r = None => fm.st = m)
+     /\ MapValues(MapValuesRefMutR(m).st) = [i \in Indices(m) |-> MapValues(m)[i] + 10 * i]
      /\ (FindOptMapped(m, v) # None) => g.elem = FindOptMapped(m, v)[1]
      /\ (FindOptMapped(m, v) = None) => g.elem = Ap(ut, v)
      /\ KeySet(m) = SortedSeqOf(Keys(m)) /\ Len(MapValues(m)) = Len(m)
